@@ -13,7 +13,7 @@ PROP = "C14"
 RULE = ("generated strongly connected street graphs with strongly varying speeds (5-120 km/h, slow direct streets vs fast detours arise by "
         "construction; every third graph has uniform speeds, where the search estimate is tight) and the shipped Denver graph; each case asks one "
         "network object a sequence of queries: random link pairs plus 'fans' (every link into and out of one junction as destination, from 1-3 "
-        "origins, so that many destinations share a cell); for link pairs (a, b): travel time of the inner part of route(a.start -> b.end), summed from "
+        "origins, so that many destinations share a cell), and in a quarter of the cases the network is written out with to_file() between two queries; for link pairs (a, b): travel time of the inner part of route(a.start -> b.end), summed from "
         "the input's travel_time attributes (length / speed where an edge has none), must equal the minimum travel time between a's end junction and b's start junction computed by "
         "an independent heapq Dijkstra written for the harness (rel. tol 1e-9). non-trivial = junction pair whose fastest path is not a "
         "fewest-links path; distinct = sha1(case)")
@@ -33,7 +33,9 @@ def st_case(draw) -> Dict[str, Any]:
     fans = draw(st.lists(st.tuples(st.integers(0, 1000), st.lists(st.integers(0, 1000), min_size=1, max_size=3), st.integers(0, 50)).map(list), max_size=3))
     # the location resolution is configuration (sim_h3_resolution, default 15): coarser grids put the two ends of short
     # links into one cell (9-11: whole blocks share a cell, and cell-centre distances differ visibly from coordinate distances)
-    return {"net": net, "graph": g, "pairs": pairs, "fans": fans, "res": draw(st.sampled_from([15, 15, 15, 13, 12, 11, 10, 9])) if net != "hav" else 15}
+    # a network in use may be written out at any time (OSMRoadNetwork.to_file, the documented way to cache a downloaded graph)
+    save_at = draw(st.sampled_from([None, None, None, 0, 1, 3]))
+    return {"net": net, "graph": g, "pairs": pairs, "fans": fans, "save_at": save_at, "res": draw(st.sampled_from([15, 15, 15, 13, 12, 11, 10, 9])) if net != "hav" else 15}
 
 
 def check_case(case: Dict[str, Any]) -> Tuple[List[Violation], Set[str], Dict[str, int]]:
@@ -56,6 +58,16 @@ def check_case(case: Dict[str, Any]) -> Tuple[List[Violation], Set[str], Dict[st
             queries += [(links[ai % len(links)], b, w) for b, w in dests[:8]]
         flags.add("fan_of_destinations_in_one_cell")
     for pi, (a, b, w) in enumerate(queries):
+        if case.get("save_at") is not None and pi == case["save_at"]:
+            import os, tempfile
+
+            fd, path = tempfile.mkstemp(suffix=".json", prefix="hv-c14-")
+            os.close(fd)
+            try:
+                rn.to_file(path)
+                flags.add("network_written_to_file_between_queries")
+            finally:
+                os.unlink(path)
         o, d = EntityPosition(a.link_id, a.start), EntityPosition(b.link_id, b.end if w == "end" else b.start)
         if o == d:
             continue
